@@ -209,8 +209,11 @@ def gen_api(rng: random.Random, idx: int) -> API:
     pkgs = [root]
     if rng.random() < 0.7:
         pkgs.append(f"{root}/{rng.choice(['core', 'subpkg', 'io_' + g.num(), '_impl'])}")
-        if rng.random() < 0.4:
-            pkgs.append(f"{pkgs[-1]}/{rng.choice(['deep', 'public_interface'])}")
+        if rng.random() < 0.5:
+            pkgs.append(f"{pkgs[-1]}/{rng.choice(['deep', 'io', 'v1'])}")
+        if rng.random() < 0.5:
+            # a sibling package with a long name: fewer segments but more characters than the deep one
+            pkgs.append(f"{root}/{rng.choice(['public_interface_layer', 'inventory_management_api'])}")
     inits = {p: Module(id_=p, name="__init__") for p in pkgs}
     modules: list[Module] = []
     nmods = rng.randrange(1, 5)
@@ -259,6 +262,20 @@ def gen_api(rng: random.Random, idx: int) -> API:
         pk = "/".join(m.id.split("/")[:-1])
         chain = [p for p in pkgs if pk == p or pk.startswith(p + "/")]
         for target in m.classes + m.global_functions:
+            crossing = [(x, y) for x in pkgs for y in pkgs if x.count("/") < y.count("/") and len(x) > len(y)]
+            if crossing and rng.random() < 0.4:
+                pair = list(rng.choice(crossing))
+            elif rng.random() < 0.15:
+                pair = rng.sample(pkgs, min(2, len(pkgs)))
+            else:
+                pair = []
+            if pair:
+                # re-exported by two packages at once (absolute imports from anywhere in the package)
+                for pk2 in pair:
+                    init = inits[pk2]
+                    init.qualified_imports.append(QualifiedImport(f"{m.id.replace('/', '.')}.{target.name}", None))
+                    if init not in target.reexported_by:
+                        target.reexported_by.append(init)
             if rng.random() < 0.3 and chain:
                 init = inits[rng.choice(chain)]
                 alias = g.name("func") if rng.random() < 0.3 else None
